@@ -11,6 +11,7 @@ yields `E`).
 -/
 import Emboss.Model.Fmt
 import Emboss.Model.Tok
+import Emboss.Spec.FmtEquivB
 import Emboss.Generated.TokTable
 namespace Emboss.FmtTok
 open Emboss.Tok Emboss.Generated
@@ -102,5 +103,20 @@ def retokExpect (iw : Nat) (c d i a : List Fmt.Row) (ty : List (List Fmt.Row)) :
   match rowsCheck (moduleRows c d i a ty) with
   | some rows => expectLeaves iw 0 [] rows
   | none => none
+
+/-- The whole evaluation for a parse tree: the root is handled by `_module`, its children
+fold to rows / sections, and `retokExpect` accepts them. -/
+def retokTree (iw : Nat) (t : Fmt.Tree) : Option (List Leaf) :=
+  match t with
+  | .node p cs =>
+    if Fmt.handlerAt Generated.FmtTable.formatters p = some .module then
+      match Fmt.foldList Generated.FmtTable.formatters iw cs with
+      | some [vc, vd, vi, va, vty] =>
+        match Fmt.asRows vc, Fmt.asRows vd, Fmt.asRows vi, Fmt.asRows va, Fmt.asSections vty with
+        | some c, some d, some i, some a, some ty => retokExpect iw c d i a ty
+        | _, _, _, _, _ => none
+      | _ => none
+    else none
+  | _ => none
 
 end Emboss.FmtTok
